@@ -8,7 +8,7 @@
     hold for whatever these functions are, and [valid] asks of each path of a
     multiget only that it survives the two ([valid_path]). *)
 From GW Require Import Base CalTime CalTimeProofs CalXml CalWire CalWireLex CalWireServer CalWireReader
-     CalWireVariant CalWireProofs.
+     CalWireVariant CalWireProofs CalWireAgree.
 
 (** The "date with UTC time" text form round-trips for every instant whose
     year has four digits. *)
@@ -100,3 +100,54 @@ Theorem C08_client_model_meets_spec :
                    (handle_report href_parse path (client_body href_fmt path r)) = true.
 Proof. exact client_model_meets_spec. Qed.
 Print Assumptions C08_client_model_meets_spec.
+
+(** The two Coq models of the CalDAV server's REPORT decoding — this one
+    ([CalWire.handle_report]: which request value reaches the backend) and C13's
+    ([ServerTotal.cal_handle_report]: which status is answered, whether the
+    backend is reached) — describe the same function on every report body tree
+    nested at most 5000 elements deep: [Err c] here iff ServerTotal answers the
+    400 of [bad_request] (c = 400; this model never yields another code nor a
+    panic), [Ok (BQuery ..)] iff ServerTotal consults QueryCalendarObjects (with a
+    filter structure whose decoding is the query's filter), [Ok (BMultiget ..)]
+    iff ServerTotal runs the GetCalendarObject loop over the same hrefs.
+    [tr] translates ServerTotal's trees into CalWire's; [r_url_ok] and
+    [href_parse] are the two models' views of url.Parse.
+    PARTIAL: the premise [2 * height t <= MAXD] cannot be dropped, see the
+    next theorem. *)
+Theorem C08_agrees_with_server_total_model_partial :
+  forall (href_parse : string -> option string) env r t path,
+    ServerTotal.is_content_xml r = true -> ServerTotal.r_xml r = ServerTotal.XTree t ->
+    (forall s, ServerTotal.r_url_ok r s = some_b (href_parse s)) ->
+    (2 * height t <= ServerTotal.MAXD)%N ->
+    match handle_report href_parse path (tr t) with
+    | Err c =>
+      c = 400%N /\ ServerTotal.cal_handle_report env r = ServerTotal.bad_request
+    | Ok (BQuery p q) =>
+      p = path /\ exists qw,
+        ServerTotal.cal_handle_report env r =
+        match ServerTotal.ce_query env with
+        | ServerTotal.BErr e => ServerTotal.HErr e []
+        | ServerTotal.BOk objs =>
+          ServerTotal.hmap (fun _ => 207%N) (ServerTotal.each_response (ServerTotal.cq_sel qw) objs)
+        end
+        /\ exists w, R_cf (ServerTotal.cq_filter qw) w /\ decode_comp_filter w = Ok (q_cf q)
+    | Ok (BMultiget ps cr) =>
+      exists mw,
+        ServerTotal.cal_handle_report env r =
+        ServerTotal.multiget_loop (ServerTotal.ce_get_obj env) (ServerTotal.mg_sel mw) (ServerTotal.mg_hrefs mw)
+        /\ Forall2 (R_href href_parse) (ServerTotal.mg_hrefs mw) ps
+    | Panic => False
+    end.
+Proof. exact agrees_with_cal_handle_report. Qed.
+Print Assumptions C08_agrees_with_server_total_model_partial.
+
+(** The models DO differ beyond that depth: ServerTotal models encoding/xml's
+    nesting limit (errUnmarshalDepth at 10000; each struct field costs up to two
+    levels), CalWire does not.  4999 comp-filters nested in each other are
+    handed to the backend by both; 5000 still by CalWire, ServerTotal answers
+    400 — as the real caldav.Handler does (notes/C08.md). *)
+Theorem C08_models_differ_beyond_depth_limit :
+  cw_reaches_backend (deep_doc (N.to_nat 4998)) = true /\ st_reaches_backend (deep_doc (N.to_nat 4998)) = true
+  /\ cw_reaches_backend (deep_doc (N.to_nat 4999)) = true /\ st_answers_400 (deep_doc (N.to_nat 4999)) = true.
+Proof. exact models_differ_beyond_depth_limit. Qed.
+Print Assumptions C08_models_differ_beyond_depth_limit.
